@@ -5,6 +5,11 @@ import json, os
 ROOT = os.path.dirname(os.path.dirname(os.path.abspath(__file__)))
 
 CHECKS = {
+ "C13": dict(
+  technique="runtime monitor: reference-model oracle (independent position-based maximal-munch scanner over a pinned token table) + offline checks of the recorded token vector (losslessness, positions)",
+  text="Every string up to length 3 (4 thorough) over a 34-character alphabet, longer strings over reduced alphabets (up to length 5 / 7), every ordered pair of the 60 operator spellings in four contexts and random assembled strings are lexed by the real lexer; the recorded token vector is checked for losslessness, empty tokens, exact line/column of each token's first character, boundaries and types against the reference scanner, the blank-line rule, and rejection of characters that start no token.",
+  note="trusts the pinned token table / scanning rules (DESIGN Appendix E); CR/FF inputs are judged for loss only; rejection of an input the reference can split is accepted",
+  design="DESIGN.md §5 C13, Appendix E"),
  "C14": dict(
   technique="runtime monitor: round-trip oracle (generated value -> spelling -> lex/parse/build/execute -> read-back through getters) on one-literal programs",
   text="All strings of length<=2 (3 thorough) over an 11-character alphabet with quotes, backslash, control and 2/3/4-byte characters in 1-, 3- and 4-quote spellings; all byte vectors of length<=2 over 7 byte values in numeric and character spellings; 20 boundary integers in every radix 2..36 with separators and leading zeros; floats in decimal and exponent form; ASCII and multi-byte symbol names; plus random literals. Each is compiled and run on both stores and the value, the element getters and the store's symbol-name table are compared with the generated value.",
